@@ -416,9 +416,17 @@ class ConcatenatedSensorCache(SensorCache):
             split_data2 = [sd for sd in split_data2 if sd is not None]
             dtype = common_dtype(split_data2)
             dummy = dummy_sensor_getter(name, value=props.get('initial_value'), dtype=dtype)
+            # Plain arrays of a non-float type (e.g. integer arrays assigned directly to the cache) need an
+            # array as filler too: extraction turns every non-float dummy into categorical data, which
+            # cannot be concatenated with arrays
+            as_array = not np.issubdtype(dtype, np.floating) and \
+                not any(isinstance(sd, CategoricalData) for sd in split_data2)
             for i, cache in enumerate(self.caches):
                 if split_data[i] is None:
-                    cache[name] = self._extract(dummy, cache.timestamps, cache.dump_period, **props)
+                    filler = self._extract(dummy, cache.timestamps, cache.dump_period, **props)
+                    if as_array and isinstance(filler, CategoricalData):
+                        filler = np.array(filler[:])
+                    cache[name] = filler
                     split_data[i] = cache.get(name, select=select, extract=True, **kwargs)
 
         if any(isinstance(sd, CategoricalData) for sd in split_data):
